@@ -121,6 +121,38 @@ CHECKS["C17"] = (
     "NumPy 2.x, independent of scikit-fem)",
 )
 
+CHECKS["C02"] = (
+    "Lean 4 proof composing C08 (rule exactness for all polynomials), C01 (assembly sums) and C09 (degrees) + exact "
+    "rational oracle on the implementation",
+    "Theorems: dx = |det| W bookkeeping; |det| is independent of the local vertex order, of translations and of "
+    "coordinate reflections/permutations (2-D, 3-D); discrete integrals add over cell lists and do not depend on "
+    "the cell order; the functional computed by assembly is the discrete integral; on an affine cell of either "
+    "orientation a rule accepted for degree n integrates EVERY pulled-back polynomial of degree <= n within "
+    "D * l1 / 2^40 (simplices and boxes); every tabulated triangle rule gives the cell measure; affine substitution "
+    "does not raise the total degree (MvPolynomial); products of traced shape functions have degree <= 2*maxdeg = "
+    "the default order; the mass matrix of a partition-of-unity basis sums to the measure. Search: Functional of "
+    "random integer polynomials over random rational meshes of all six cell types (whole mesh, cell subsets, facet "
+    "sets; general convex quadrilaterals), Lagrange P0-P4 mass/stiffness/load against exactly computed rational "
+    "matrices, mass sums, invariance under renumbering / cell permutation / rigid motion / refinement, all against "
+    "an independent Fraction integrator.",
+    "Exactness on general (non-affine) quadrilaterals/hexahedra and on facets is search only; the change of "
+    "variables and the reference monomial integrals are part of the statement; rounding not modelled (partial).")
+CHECKS["C03"] = (
+    "Lean 4 proof of the sharing/sign logic + kernel-checked reference facts + one-sided trace search",
+    "Theorems for all vertex numbers / cells: the H(curl) sign rule turns a uniform reference circulation into a "
+    "circulation along the global direction low->high independent of the local edge and direction (two cells agree), "
+    "the H(div) rule gives opposite signs on the two neighbours so the flux against one normal agrees, the odd-mode "
+    "orientation of ElementQuadP cancels the parity under reversal, shared entities carry shared DOF numbers (from "
+    "C04), traces with equal (dof, psi) lists agree for every coefficient vector and point; counterexample theorems "
+    "for the pinned ElementQuadN1 / ElementQuadP. The uniform flux/circulation of every lowest-order H(div)/H(curl) "
+    "reference element is kernel-checked on the shape functions traced from the live source (C09 facts). The "
+    "implementation's orient()/gbasis signs are compared with the model on random meshes; the two one-sided traces "
+    "(value / normal / tangential / gradient / defining functionals) of random coefficient vectors are compared on "
+    "random renumbered, permuted, locally re-ordered and curved meshes for every element with a continuity claim.",
+    "That equal (dof, psi) lists arise for H1 elements (trace tables, facet parametrisation by ascending vertex "
+    "order) is established by the search, not yet by generated facts; curved facets and globally defined elements "
+    "are search only (partial).")
+
 NOT_YET = {}
 
 
